@@ -115,12 +115,13 @@ def add_undeclared(doc: dict, inst: Any) -> tuple[Any, str] | None:
 
 
 # ============================================================ (a) validJ vs jsonschema, (b) tr vs parser, (c) acceptsTy vs classes
-def campaign_model(ck: Check, n: int) -> None:
-    ca = ck.campaign("sem.valid (Dcg.Sem.validJ) vs jsonschema on seeded (schema, instance) pairs")
-    cb = ck.campaign("sem.tr (Model.Translate.tr) vs IR dump of JsonSchemaParser(...).parse_raw()")
-    cc = ck.campaign("sem.accepts (Sem.Pyd.acceptsTy ∘ tr) vs the exec'd generated classes")
+def campaign_model(ck: Check, n: int, parts: tuple = ("valid", "tr", "acc"), fork: str = "model") -> None:
+    """`parts`: which of the three correspondences to run (C14 runs the stage-1 comparison only)"""
+    ca = ck.campaign("sem.valid (Dcg.Sem.validJ) vs jsonschema on seeded (schema, instance) pairs") if "valid" in parts else None
+    cb = ck.campaign("sem.tr (Model.Translate.tr) vs IR dump of JsonSchemaParser(...).parse_raw()") if "tr" in parts else None
+    cc = ck.campaign("sem.accepts (Sem.Pyd.acceptsTy ∘ tr) vs the exec'd generated classes") if "acc" in parts else None
     t0 = time.time()
-    rng = ck.rng.fork("model")
+    rng = ck.rng.fork(fork)
     reqs: list[str] = []
     meta: list[tuple] = []
     docs: list[tuple[dict, set]] = [(d, {f"focused:{l}"}) for l, d in focused_docs()]
@@ -131,10 +132,11 @@ def campaign_model(ck: Check, n: int) -> None:
             ssx = semlean.schema_sx(semlean.body_of(doc), top=True)
             dsx = semlean.defs_sx(doc)
         except semlean.Unmodelled as e:
-            ca.unmodelled += 1
-            ca.hit(f"unmodelled:{str(e)[:30]}")
+            c0 = ca or cb or cc
+            c0.unmodelled += 1
+            c0.hit(f"unmodelled:{str(e)[:30]}")
             continue
-        vi = semgen.valid_instances(doc)
+        vi = semgen.valid_instances(doc) if (ca or cc) else []
         muts = []
         for inst in vi[:3]:
             muts += semgen.mutations(doc, inst)
@@ -147,22 +149,23 @@ def campaign_model(ck: Check, n: int) -> None:
             rsx = semlean.regex_sx(doc, [x for x, _ in insts])
             enc = [(semlean.json_sx(x), lab, x) for x, lab in insts]
         except semlean.Unmodelled:
-            ca.unmodelled += 1
+            (ca or cb or cc).unmodelled += 1
             continue
         for f in feats:
-            ca.hit(f"feature:{f}")
-        for jx, lab, x in enc:
-            reqs.append(f"sem.valid {FUEL_VALID} {rsx} {dsx} {ssx} {jx}")
-            meta.append(("valid", doc, x, lab))
+            (ca or cb or cc).hit(f"feature:{f}")
+        if ca:
+            for jx, lab, x in enc:
+                reqs.append(f"sem.valid {FUEL_VALID} {rsx} {dsx} {ssx} {jx}")
+                meta.append(("valid", doc, x, lab))
         for st in STYLES:
-            for r in ROUTINGS:
+            for r in ROUTINGS if cb else ():
                 reqs.append(f"sem.tr {st} {r} top {ssx}")
                 meta.append(("tr", doc, st, r, None))
                 for dn, ds in (doc.get("definitions") or {}).items():
                     # the class of a definition after the discriminator pass over the whole document
                     reqs.append(f"sem.trdef {st} {r} {dsx} {ssx} {semlean.hx(dn)}")
                     meta.append(("tr", doc, st, r, dn))
-            for r in ("contype", "field"):
+            for r in ("contype", "field") if cc else ():
                 for jx, lab, x in enc:
                     reqs.append(f"sem.accepts {st} {r} {FUEL_ACCEPT} {rsx} {dsx} {ssx} {jx}")
                     meta.append(("acc", doc, st, r, x, lab))
@@ -253,8 +256,9 @@ def campaign_model(ck: Check, n: int) -> None:
                 cc.samples.append({"doc": doc, "instance": x, "style": st, "routing": r, "verdict": tri})
     for b in built.values():
         b.close()
-    for c in (ca, cb, cc):
-        c.wall_s = round((time.time() - t0) / 3, 2)
+    live = [c for c in (ca, cb, cc) if c]
+    for c in live:
+        c.wall_s = round((time.time() - t0) / len(live), 2)
 
 
 # ============================================================ (d) the property oracle
@@ -415,6 +419,19 @@ def focused_docs() -> list[tuple[str, dict]]:
         )
     )
     docs += disc_docs()
+    rec = lambda nm: {"type": "object", "properties": {"kind": {"const": nm}, "name": {"type": "string"}, "age": {"type": "integer", "minimum": 0}}, "required": ["kind", "name"], "additionalProperties": False}  # noqa: E731
+    docs.append(
+        (
+            "tagged_records",
+            {
+                "title": "Model",
+                "type": "object",
+                "properties": {"pet": {"anyOf": [{"$ref": "#/definitions/Cat"}, {"$ref": "#/definitions/Dog"}]}, "all": {"type": "array", "items": {"oneOf": [{"$ref": "#/definitions/Cat"}, {"$ref": "#/definitions/Dog"}, {"$ref": "#/definitions/Bird"}]}}},
+                "required": ["pet"],
+                "definitions": {"Cat": rec("Cat"), "Dog": rec("Dog"), "Bird": rec("Bird")},
+            },
+        )
+    )
     docs.append(("nullable", {"title": "Model", "type": "object", "properties": {"a": {"type": ["string", "null"], "maxLength": 3}, "b": {"type": ["integer", "null"], "minimum": 0}, "c": {"anyOf": [{"type": "string"}, {"type": "null"}]}}, "required": ["a"]}))
     docs.append(("alias", {"title": "Model", "type": "object", "properties": {"kebab-name": {"type": "integer"}, "class": {"type": "string"}, "with space": {"type": "boolean"}, "1st": {"type": "number"}}, "required": ["kebab-name", "class"]}))
     docs.append(("dict", {"title": "Model", "type": "object", "properties": {"m": {"type": "object", "additionalProperties": {"type": "integer", "minimum": 0}}, "n": {"type": "object", "additionalProperties": {"$ref": "#/definitions/P"}}}, "definitions": {"P": {"type": "object", "properties": {"x": {"type": "number"}}, "required": ["x"]}}}))
